@@ -405,3 +405,24 @@ Proof.
   split; [|vm_compute; reflexivity].
   repeat constructor; cbn; lia.
 Qed.
+
+(* packets_deliver_blocks together with the remaining header fields the tile decoder reads: for
+   every included code-block of every decoded packet the zero-bit-plane count, the per-pass
+   lengths and the TERMALL flag are those of the cell's block in the encoder's initial store
+   (PktFields; used by the end-to-end composition in coq/Pipe). *)
+From V Require Import T2.T2ProofsPackets4.
+Theorem C04_t2_packets_deliver_fields : forall termAll style nl nr nc order g pidx geo strict resilient cells0,
+  termAll = negb (Z.land style 4 =? 0) ->
+  (forall c r, enc_pidx cells0 c r = pidx c r) -> (forall c r, NoDup (pidx c r)) ->
+  (2 <= order -> pk_ok nr nc pidx (precinct_position_key g nr)) ->
+  (forall k, In k (cell_keys nr nc pidx) -> CellRel termAll nl geo 0 k cells0 []) ->
+  0 <= order <= 4 -> 0 < nl ->
+  forall eps cells', enc_packets order nl nr nc g cells0 = Ok (eps, cells') -> small_packets eps ->
+  exists dps items,
+    dec_packets (packets_bytes eps) order nl nr nc g pidx geo style strict resilient = Ok dps /\
+    prog_seq order nl nr nc pidx (precinct_position_key g nr) = Some items /\
+    Sched nl (cell_keys nr nc pidx) (fun _ => 0) items /\
+    map ep_item eps = items /\ Forall2 PktMatch eps dps /\ Forall (incls_ok cells0) eps /\
+    Forall2 (PktFields termAll cells0) eps dps.
+Proof. exact packets_deliver_fields. Qed.
+Print Assumptions C04_t2_packets_deliver_fields.
